@@ -7,13 +7,20 @@
     particular an error-free anchored adapter is removed exactly.  Together with
     C07_comparers_unfiltered this holds for match_to as the user gets it (no prefilter there).
 
-    NOT proved here (C02 is partial in this respect): completeness of the banded DP of
-    Aligner.locate (the clauses for regular / non-internal / anywhere adapters and for anchored
-    adapters with indels, and the three cut-position clauses).  Those rest on the correspondence
-    (model = implementation for prefiltered match_to of all eight classes) and on the
-    planted-occurrence / brute-force / cut-position oracle run against the implementation. *)
+    Also proved (Proofs/AlignComplete.v): for regular 5', regular 3' and 'anywhere' adapters with
+    indels enabled, an error-free copy of the whole adapter anywhere in the read is always found by
+    the aligner (Aligner.locate reports a match): the DP cells on the diagonal of the copy are tracked
+    exactly -- cost 0, so the Ukkonen cut-off cannot drop them -- up to the column where the copy ends,
+    where the candidate is accepted unless a candidate is recorded already.
+
+    NOT proved here (C02 is partial in this respect): completeness of the banded DP for occurrences
+    WITH errors and for partial occurrences, the clauses for non-internal and anchored adapters with
+    indels, the three cut-position clauses, and that the k-mer prefilter lets such reads through (C07).
+    Those rest on the correspondence (model = implementation for prefiltered match_to of all eight
+    classes) and on the planted-occurrence / brute-force / cut-position oracle run against the
+    implementation. *)
 From Coq Require Import ZArith List Bool.
-From CV Require Import Generated.Scores Model.Align Model.Adapters Model.Kmer Proofs.AdapterProofs Proofs.KmerProofs.
+From CV Require Import Generated.Scores Model.Align Model.Adapters Model.Kmer Proofs.AdapterProofs Proofs.KmerProofs Proofs.AlignDist Proofs.AlignComplete.
 Import ListNotations.
 Open Scope Z_scope.
 
@@ -32,8 +39,54 @@ Theorem C02_anchored_noindels_unfiltered : forall thr ad read,
 Proof. exact comparer_no_prefilter. Qed.
 Print Assumptions C02_anchored_noindels_unfiltered.
 
+(** regular 5', regular 3' and 'anywhere' adapters, indels enabled: an error-free copy of the whole
+    adapter anywhere in the read is always reported by the aligner *)
+Theorem C02_full_copy_found : forall thr ad read p,
+  match a_type ad with Front | Back | Anywhere => True | _ => False end -> a_indels ad = true ->
+  1 <= zlen (a_seq ad) -> a_min_overlap ad <= zlen (a_seq ad) ->
+  (forall L, 0 <= thr L) -> (forall L, thr L <= thr (zlen (a_seq ad))) -> thr (zlen (a_seq ad)) <= zlen (a_seq ad) ->
+  0 <= p -> p + zlen (a_seq ad) <= zlen read ->
+  (forall t, 0 <= t < zlen (a_seq ad) ->
+     loc_eqc (ad_cfg ad) (a_wq ad) (znth 0 (loc_s1 (ad_cfg ad) (a_wq ad) (a_seq ad)) t)
+                                   (znth 0 (loc_s2 (ad_cfg ad) (a_wq ad) (ad_query ad read)) (p + t)) = true) ->
+  match_to thr ad read <> None.
+Proof. exact match_to_full_copy. Qed.
+Print Assumptions C02_full_copy_found.
+
+(** ... at the level of Aligner.locate: every flag set that may start and stop anywhere in the query *)
+Theorem C02_locate_full_copy : forall thr cfg wq ref query p,
+  indel_cost cfg = 1 -> start_in_query cfg = true -> stop_in_query cfg = true ->
+  1 <= zlen ref -> min_overlap cfg <= zlen ref ->
+  (forall L, 0 <= thr L) -> (forall L, thr L <= thr (zlen ref)) -> thr (zlen ref) <= zlen ref ->
+  0 <= p -> p + zlen ref <= zlen query ->
+  (forall t, 0 <= t < zlen ref -> loc_eqc cfg wq (znth 0 (loc_s1 cfg wq ref) t) (znth 0 (loc_s2 cfg wq query) (p + t)) = true) ->
+  locate thr cfg wq ref query <> None.
+Proof. exact locate_full_copy. Qed.
+Print Assumptions C02_locate_full_copy.
+
 (** non-vacuity: ^ACGT against ACGTTT with zero errors allowed is removed exactly *)
 Example C02_exact_anchored :
   match_to_prefiltered (thr_of [0;0;0;0;0]) (mkAd Prefix [65;67;71;84] false false false 4 false) [65;67;71;84;84;84]
   = Some (mkM 0 4 0 4 4 0 0).
 Proof. vm_compute. reflexivity. Qed.
+
+(** non-vacuity of C02_full_copy_found: 3' adapter ACGTAC (rate 0.2), read TTACGTACTT, copy at 2 *)
+Definition ex2_ad : adapter := mkAd Back [65;67;71;84;65;67] true false true 3 false.
+Definition ex2_thr : Z -> Z := thr_of [0;0;0;0;0;1;1].
+Definition ex2_read : list Z := [84;84;65;67;71;84;65;67;84;84].
+Example C02_nonvacuous_copy :
+  (forall L, 0 <= ex2_thr L) /\ (forall L, ex2_thr L <= ex2_thr (zlen (a_seq ex2_ad))) /\
+  (forall t, 0 <= t < zlen (a_seq ex2_ad) ->
+     loc_eqc (ad_cfg ex2_ad) (a_wq ex2_ad) (znth 0 (loc_s1 (ad_cfg ex2_ad) (a_wq ex2_ad) (a_seq ex2_ad)) t)
+             (znth 0 (loc_s2 (ad_cfg ex2_ad) (a_wq ex2_ad) (ad_query ex2_ad ex2_read)) (2 + t)) = true) /\
+  match_to ex2_thr ex2_ad ex2_read <> None.
+Proof.
+  assert (Ht : forall L, 0 <= ex2_thr L <= 1).
+  { intros L. unfold ex2_thr, thr_of, znth. destruct (L <? 0); [vm_compute; split; congruence|].
+    destruct (Z.to_nat L) as [|[|[|[|[|[|[|k]]]]]]]; try (vm_compute; split; congruence). destruct k; vm_compute; split; congruence. }
+  split; [intros L; apply Ht|]. split; [intros L; destruct (Ht L) as [_ H]; exact H|]. split.
+  - intros t Hr. change (zlen (a_seq ex2_ad)) with 6 in Hr.
+    assert (Hc : t = 0 \/ t = 1 \/ t = 2 \/ t = 3 \/ t = 4 \/ t = 5) by lia.
+    destruct Hc as [->|[->|[->|[->|[->| ->]]]]]; vm_compute; reflexivity.
+  - vm_compute. discriminate.
+Qed.
